@@ -6,7 +6,7 @@ From Coq Require Import String ZArith List Bool.
 From V Require Import Base.Int Base.IO Spec.Gregorian Model.TimeDelta Model.DateTime Model.C03 Proofs.C06 Proofs.C03.
 From V Require Model.Date Model.Time Proofs.C03Headroom Proofs.C03Zone Proofs.C03Nth.
 From V Require Import Proofs.C03Ops Proofs.C03Adapt.
-From V Require Judge.C03 Proofs.C03Holds.
+From V Require Judge.C03 Proofs.C03Holds Proofs.C03HoldsAr.
 Import ListNotations.
 Open Scope Z_scope.
 
@@ -672,3 +672,33 @@ Example C03_holds_inhabited :
   run B"it.wlast" [Proofs.C03Holds.vd (-262143) 100; VInt 1] = VSome (Proofs.C03Holds.vd (-262143) 9).
 Proof. exact Proofs.C03Holds.holds_examples. Qed.
 Print Assumptions C03_holds_inhabited.
+
+(* ---- the arithmetic ops: on EVERY case line (arbitrary argument lists) of 38 of the 40 ar ops - every
+        checked form, operator form, compound assignment, Duration / Days / FixedOffset operand, difference,
+        round trip and order op of NaiveDate, NaiveDateTime and DateTime<FixedOffset>; all but ar.zdays /
+        ar.opzdays, whose judge accepts two outcomes in the headroom class and whose value-level statement is
+        C03_zone_days_exact - whenever the judge of Judge/C03.v has an opinion it accepts the model's output
+        (Proofs/C03HoldsAr.v: bridges between the judge's instants / day numbers / nanosecond counts and the
+        model's decoded values, one lemma per argument shape) ---- *)
+Theorem C03_holds_arith : forall op args, In op Proofs.C03HoldsAr.arith_ops ->
+  Judge.C03.judge op args (run op args) <> JSkip -> Judge.C03.judge op args (run op args) = JOk.
+Proof. exact Proofs.C03HoldsAr.holds_arith. Qed.
+Print Assumptions C03_holds_arith.
+Theorem C03_holds_arith_ops : Proofs.C03HoldsAr.arith_ops =
+  [B"ar.nadd"; B"ar.nsub"; B"ar.opnadd"; B"ar.opnsub"; B"ar.ndiff"; B"ar.opndiff"; B"ar.ndays"; B"ar.opndays";
+   B"ar.addstd"; B"ar.stdasg"; B"ar.nrt"; B"ar.nord"; B"ar.dadd"; B"ar.dsub"; B"ar.opdadd"; B"ar.opdsub";
+   B"ar.dadds"; B"ar.dsubs"; B"ar.opdadds"; B"ar.opdsubs"; B"ar.ddiff"; B"ar.opddiff";
+   B"ar.zadd"; B"ar.zsub"; B"ar.opzadd"; B"ar.opzsub"; B"ar.opzaddasg"; B"ar.opzsubasg";
+   B"ar.zdiff"; B"ar.opzdiff"; B"ar.opzdiffref"; B"ar.zaddstd"; B"ar.zstdasg"; B"ar.opdasg"; B"ar.opnasg";
+   B"ar.noff"; B"ar.opnoff"; B"ar.opzoff"].
+Proof. exact eq_refl. Qed.
+Print Assumptions C03_holds_arith_ops.
+Example C03_holds_arith_inhabited :
+  Judge.C03.judge B"ar.opzoff" [VTup [VInt 262142; VInt 365; VInt 86399; VInt 999999999; VInt 3600]; VInt 1; VInt 1]
+    (run B"ar.opzoff" [VTup [VInt 262142; VInt 365; VInt 86399; VInt 999999999; VInt 3600]; VInt 1; VInt 1]) = JOk /\
+  Judge.C03.judge B"ar.stdasg" [VTup [VInt 2024; VInt 60; VInt 0; VInt 0]; VInt (-1); VInt 86400; VInt 1]
+    (run B"ar.stdasg" [VTup [VInt 2024; VInt 60; VInt 0; VInt 0]; VInt (-1); VInt 86400; VInt 1]) = JOk /\
+  Judge.C03.judge B"ar.opdasg" [VTup [VInt 2024; VInt 60]; VInt 1; VTup [VInt 86399; VInt 999999999]]
+    (run B"ar.opdasg" [VTup [VInt 2024; VInt 60]; VInt 1; VTup [VInt 86399; VInt 999999999]]) = JOk.
+Proof. exact Proofs.C03HoldsAr.arith_examples. Qed.
+Print Assumptions C03_holds_arith_inhabited.
